@@ -181,6 +181,17 @@ class SocketConfig:
         if self.url != other.url:
             return False
 
+        # the other settings that reach the socket: without them a changed
+        # socket_backlog / socket_mode / socket_owner is not seen by reread
+        if self.backlog != other.backlog:
+            return False
+
+        if getattr(self, 'mode', None) != getattr(other, 'mode', None):
+            return False
+
+        if getattr(self, 'owner', None) != getattr(other, 'owner', None):
+            return False
+
         return True
 
     def __ne__(self, other):
